@@ -145,8 +145,7 @@ def equiv_judge(cfg, idx):
     u = s1.fr(cfg["u"])
     ncmp = 0
     for j, (a, b) in enumerate(zip(ha, hb)):
-        if mus[j] == 0 or mus[j] == u:
-            continue
+        # compared at every index, also where mu_j is 0 or u: the two forms must follow the same convention there
         if a != a or b != b:
             continue
         ncmp += 1
